@@ -82,3 +82,8 @@ Proof. intros Hu. destruct (part_ext n (augment D facts)) as [R|] eqn:HR; [exfal
 Corollary zocf_unsat_facts_refused D facts : facts <> [] -> facts_sat n facts = false -> zocf_partition n None facts D = None.
 Proof. intros Hne Hu. unfold zocf_partition, zocf_mode. destruct facts; [congruence|]. simpl. apply unsat_facts_refused. exact Hu. Qed.
 End ZF.
+
+(* extended mode: the top rank goes to exactly the infeasible worlds *)
+Theorem top_rank_iff_infeasible fin Cinf w : zrank_of (fin ++ [Cinf]) w = S (length fin) <-> nofals world Cinf w = false.
+Proof. rewrite zrank_of_ext. destruct (nofals world Cinf w); split; intros H; try reflexivity; try discriminate.
+  pose proof (finite_ranks_below_top fin w). lia. Qed.
